@@ -114,7 +114,8 @@ Cands(t) ==
                            Tup(<<DT(2, 1), DT(3, 1)>>), Tup(<<DT(3, 0), DT(4, 1)>>), Tup(<<D(3), D(2)>>), Tup(<<D(2)>>),
                            Tup(<<I(1), I(2)>>), Lst(<<D(2), D(3)>>), None, D(2)}
     [] t = "CalendarDateRange" -> {Tup(<<D(2), D(4)>>), Tup(<<D(3), D(3)>>), Tup(<<D(1), D(3)>>), Tup(<<D(3), D(5)>>), Tup(<<D(3), D(2)>>),
-                                   Tup(<<I(1), I(2)>>), Tup(<<S("a1"), S("zz")>>), None}
+                                   Tup(<<I(1), I(2)>>), Tup(<<S("a1"), S("zz")>>), None,
+                                   Lst(<<D(2), D(4)>>), Tup(<<DT(2, 0), DT(3, 0)>>), Tup(<<D(2), DT(3, 1)>>)}     \* a list; datetimes
     [] t = "List" -> {Lst(<<>>), Lst(<<I(1)>>), Lst(<<I(1), I(2)>>), Lst(<<I(1), I(2), I(3)>>), Lst(<<S("a1")>>), Lst(<<I(1), S("a1")>>),
                       Lst(<<S("a1"), S("zz"), S("")>>), Tup(<<I(1)>>), None, I(1), S("a1"),
                       Lst(<<I(1), None>>), Lst(<<None, S("a1")>>), Lst(<<None>>)}
